@@ -361,6 +361,12 @@ func (c *Conn) FailNextWrite(err error) {
 	c.mu.Unlock()
 }
 
+// ReadErrSet reports whether a read error / EOF has been injected.
+func (c *Conn) ReadErrSet() bool { c.mu.Lock(); defer c.mu.Unlock(); return c.rerr != nil }
+
+// ClearWriteFaults disarms write failures that have not fired yet.
+func (c *Conn) ClearWriteFaults() { c.mu.Lock(); c.failWrite = nil; c.mu.Unlock() }
+
 // Consumed reports whether injection id was fully read by the client.
 func (c *Conn) Consumed(id int64) bool {
 	c.mu.Lock()
